@@ -40,6 +40,43 @@ func allScalarTerms(xs []Value) bool {
 
 func (in *Interp) loadIdx(p *idxPtr) Value {
 	n := len(p.base)
+	allConst := true
+	for _, v := range p.base {
+		if !v.(*Term).IsConst() {
+			allConst = false
+			break
+		}
+	}
+	if allConst && n > 4 {
+		// constant table: one unsigned comparison per run of equal values
+		res := p.base[n-1].(*Term)
+		for i := n - 2; i >= 0; i-- {
+			cur := p.base[i].(*Term)
+			if cur.val == p.base[i+1].(*Term).val {
+				continue
+			}
+			// indexes <= i select the run ending at i
+			res = in.f.Ite(in.f.Cmp(OpUle, p.idx, mkConst(uint64(i), p.idx.w)), cur, res)
+		}
+		// the chain was built from the top down, so re-nest: entries of lower
+		// runs must win; build again from low to high
+		res = p.base[n-1].(*Term)
+		type run struct {
+			end int
+			v   *Term
+		}
+		var runs []run
+		for i := 0; i < n; i++ {
+			if i == n-1 || p.base[i].(*Term).val != p.base[i+1].(*Term).val {
+				runs = append(runs, run{i, p.base[i].(*Term)})
+			}
+		}
+		res = runs[len(runs)-1].v
+		for k := len(runs) - 2; k >= 0; k-- {
+			res = in.f.Ite(in.f.Cmp(OpUle, p.idx, mkConst(uint64(runs[k].end), p.idx.w)), runs[k].v, res)
+		}
+		return res
+	}
 	res := p.base[n-1].(*Term)
 	for i := n - 2; i >= 0; i-- {
 		res = in.f.Ite(in.f.Eq(p.idx, mkConst(uint64(i), p.idx.w)), p.base[i].(*Term), res)
@@ -1092,6 +1129,9 @@ func (in *Interp) callBuiltin(caller *frame, fn *ssa.Builtin, args []Value) Valu
 		}
 		return Iface{}
 
+	case "ssa:deferstack":
+		return &deferStackRef{fr: caller}
+
 	case "ssa:wrapnilchk":
 		recv := args[0]
 		if p, ok := recv.(*Value); ok && p == nil {
@@ -1144,5 +1184,6 @@ func (in *Interp) callBuiltin(caller *frame, fn *ssa.Builtin, args []Value) Valu
 	panic(unsupported{"builtin " + fn.Name()})
 }
 
+type deferStackRef struct{ fr *frame }
 type sliceDataPtr struct{ s Slice }
 type strDataPtr struct{ s Value }
